@@ -215,4 +215,4 @@ def check(case):
 # wall-clock budgets can be stretched on an overloaded machine (never changes which cases are generated)
 import os as _os
 _BS = float(_os.environ.get("VERIF_BUDGET_SCALE", "1") or 1)
-SUBS = [Sub("grid", case_st(), check, quick=32, thorough=800, budget_quick=70 * _BS, budget_thorough=500 * _BS)]
+SUBS = [Sub("grid", case_st(), check, quick=32, thorough=2400, budget_quick=70 * _BS, budget_thorough=500 * _BS)]
